@@ -345,6 +345,7 @@ def run(chk: Check) -> None:
 
     run_dep_hash(chk, ix)
     run_follow_skip(chk, ix)
+    run_reparse_forcing(chk, ix)
 
     # ---------------- R02.6
     r6 = chk.rule("R02.6", "TypeIndirectionVisitor reaches every type component (matrix row) and indirect dependencies are patched after type checking", floor=25)
@@ -466,3 +467,27 @@ def run_follow_skip(chk: Check, ix) -> None:
                 r9.violation(key, f.loc(c), "this test treats a module as not followed from the raw option alone; a stub (.pyi) is followed even under follow_imports=skip/error (unless follow_imports_for_stubs), so e.g. a newly appeared stub package is ignored here while the rest of the build follows it: the importer is not re-parsed and the cache keeps the old dependency list")
     if n_sites < 1:
         raise AnalysisError("no raw follow_imports skip/error test found in build.py (expected exist_added_packages)")
+
+
+def run_reparse_forcing(chk: Check, ix) -> None:
+    """R02.10: appearance of a suppressed package / disappearance of a submodule forces the importer to be re-parsed."""
+    from ..pattern import has
+    r10 = chk.rule("R02.10", "State.new_state, on a valid cache meta outside fine-grained cache loading, consults exist_added_packages(suppressed) and exist_removed_submodules(dependencies) and either answer marks the state for re-parsing; states marked so are parsed by load_graph before their dependencies are used", floor=3)
+    ns = ix.func("mypy.build.State.new_state")
+    for fn, arg in (("exist_added_packages", "suppressed"), ("exist_removed_submodules", "dependencies")):
+        key = f"new_state: {fn}({arg}, manager) => state.needs_parse = True"
+        if has(ns.node, f"if {fn}({arg}, manager):\n    $st.needs_parse = True"):
+            calls = [c for c in ast.walk(ns.node) if isinstance(c, ast.Call) and call_name_(c) == fn]
+            conds = [norm(t) for t in guard_chain(ns, calls[0])[0]]
+            extra = [t for t in conds if t not in ("meta", "not manager.use_fine_grained_cache()")]
+            if "meta" in conds and not extra:
+                r10.ok(key, ns.loc(calls[0]))
+            else:
+                r10.violation(key, ns.loc(calls[0]), f"the test runs under {conds}: it is skipped for some cached modules, whose dependency list then stays as cached although the package structure changed")
+        else:
+            r10.violation(key, ns.loc(), "a changed package structure no longer forces the importer's dependencies to be recomputed: `from pkg import mod` keeps treating mod as an attribute (or as a module) as it was when cached")
+    lg = ix.func("mypy.build.load_graph")
+    if has(lg.node, "manager.parse_all([$s for $s in $new if $s.needs_parse])") or has(lg.node, "$m.parse_all([$s for $s in $new if $s.needs_parse])"):
+        r10.ok("load_graph parses every new state marked needs_parse", lg.loc())
+    else:
+        r10.violation("load_graph parses every new state marked needs_parse", lg.loc(), "states marked for re-parsing are not parsed in load_graph")
